@@ -363,10 +363,10 @@ def vocabulary(acc):
     R, T = _lib()
     m = core.load_repo()
     from ctparse.nb_scorer import NaiveBayesScorer
-    sc = m._DEFAULT_SCORER
+    sc = core.default_scorer()
     if not isinstance(sc, NaiveBayesScorer):
         raise core.HarnessError("shipped model not loaded")
-    vocab = sc._model.transformer.vocabulary
+    vocab = core.scorer_model(sc).transformer.vocabulary
     known = {str(i) for i in R._regex} | set(R.rules)
     for tok in sorted(vocab):
         parts = tok.split(" ")
